@@ -1,6 +1,7 @@
 package main
 
 import (
+	"bytes"
 	"fmt"
 	"os"
 	"path/filepath"
@@ -10,6 +11,8 @@ import (
 	"time"
 	"unicode"
 	"unicode/utf8"
+
+	"ariga.io/atlas/sql/migrate"
 
 	"verifharness/internal/clirun"
 	"verifharness/internal/out"
@@ -106,8 +109,13 @@ func genCLI(w *out.W, tier string) {
 	defer os.RemoveAll(root)
 	const tmpl = `{{ range .Files }}{{ $f := . }}{{ range .Reports }}{{ range .Diagnostics }}{{ .Pos }}:{{ $f.Line .Pos }} {{ end }}{{ end }}{{ end }}`
 	n := 0
+	var texts []string
+	defer func() {
+		fileReuse(w, append(texts, "A;\nB;\n", "-- c\nA;\n\n-- d\nB;\n", "-- header\n\nCREATE TABLE t (\n  id int\n);\nDROP TABLE t;\n", ""))
+	}()
 	for fi := 0; fi < nfiles; fi++ {
 		text, drops := genLintFile(r, fi)
+		texts = append(texts, text)
 		dir := filepath.Join(root, fmt.Sprintf("d%d", fi))
 		var base strings.Builder
 		for i := 0; i < 6; i++ {
@@ -201,4 +209,57 @@ func genLintFile(r *rng.R, fi int) (string, map[int]int) {
 		add(rng.Pick(r, []string{"\n", "\n\n", " ", "\n"}))
 	}
 	return b.String(), drops
+}
+
+// fileReuse: what a *migrate.LocalFile reports must be a function of its current bytes. The same file value is
+// scanned, given a header directive (AddDirective prepends a line, as WriteCheckpoint / `migrate checkpoint` and
+// the checkpoint tagging do), and scanned again: statements, positions, texts and comments must equal those of a
+// new LocalFile built from the same final bytes; and every statement must be found at its Pos in Bytes().
+func fileReuse(w *out.W, texts []string) {
+	canon := func(ss []*migrate.Stmt, err error) string {
+		if err != nil {
+			return "err"
+		}
+		var b strings.Builder
+		for _, s := range ss {
+			fmt.Fprintf(&b, "%d:%s:%s|", s.Pos, hx(s.Text), hx(strings.Join(s.Comments, "\x00")))
+		}
+		return b.String()
+	}
+	dirs := [][]string{{"checkpoint"}, {"checkpoint", "v1"}, {"nolint"}, {"txmode", "none"}, {"delimiter", "\\n\\n"}}
+	for ti, text := range texts {
+		for di, d := range dirs {
+			id := fmt.Sprintf("reuse%d.%d", ti, di)
+			f := migrate.NewLocalFile("1_f.sql", []byte(text))
+			d1, e1 := f.StmtDecls()
+			_, _ = f.Stmts()
+			f.AddDirective(d[0], d[1:]...)
+			d2, e2 := f.StmtDecls()
+			t2, e2t := f.Stmts()
+			g := migrate.NewLocalFile("1_f.sql", append([]byte(nil), f.Bytes()...))
+			d3, e3 := g.StmtDecls()
+			t3, e3t := g.Stmts()
+			w.ImplOnly(id, fmt.Sprintf("scan, AddDirective(%v), scan again vs a new file with the same bytes: %q", d, text))
+			w.Count("file-reuse")
+			if len(d1) > 0 && e1 == nil {
+				w.NonTrivial(id)
+			}
+			if a, b := canon(d2, e2), canon(d3, e3); a != b {
+				w.Violation(id, "file-reuse-stale", fmt.Sprintf("after AddDirective(%v) the same LocalFile reports %s, a new LocalFile over the same bytes reports %s; file before: %q", d, a, b, text))
+				continue
+			}
+			if fmt.Sprint(t2, e2t) != fmt.Sprint(t3, e3t) {
+				w.Violation(id, "file-reuse-stale", fmt.Sprintf("after AddDirective(%v) Stmts() of the same LocalFile = %q, of a new one = %q; file before: %q", d, t2, t3, text))
+				continue
+			}
+			if e2 == nil && d[0] != "delimiter" {
+				for _, s := range d2 {
+					if !bytes.HasPrefix(f.Bytes()[min(s.Pos, len(f.Bytes())):], []byte(s.Text)) {
+						w.Violation(id, "file-reuse-pos", fmt.Sprintf("after AddDirective(%v): statement %q is not at Pos %d of the file's bytes %q", d, s.Text, s.Pos, f.Bytes()))
+						break
+					}
+				}
+			}
+		}
+	}
 }
